@@ -460,7 +460,7 @@ def handleLine (t : TS) (line : String) : TS :=
       (if t.expectFail then { t with expectFail := false, inFailedOpen := true, nLifecycle := t.nLifecycle + 1 }
        else if t.faultMode && t.faultArmed then { t with isOpen := false, nFailedOpens := t.nFailedOpens + 1 }   -- an open may fail while I/O errors are being injected
        else if t.faultMode then t.problem "VIOLATION[faultreopen]" s!"after the injected I/O error was gone the database could not be opened: rc={rc}"
-       else t.problem "MISMATCH[other]" s!"open failed rc={rc}")
+       else t.problem "VIOLATION[reopen]" s!"a database that was closed{if t.repairing then " and repaired" else ""} without any fault or damage could not be opened again: rc={rc}")
     else
       let t := if t.expectFail then t.problem "VIOLATION[lifecycle]" "an open that must be refused (wrong comparator) succeeded" else t
       let t := { t with expectFail := false }
